@@ -17,6 +17,21 @@ set_option linter.unusedVariables false
 namespace LZ.GenHPParse
 open LZ LZ.Gen LZ.GenBuf LZ.GenHash
 
+/-- `omega` after normalising the `Int.ofNat n` of the generated text to `↑n` -/
+macro "int_omega" : tactic => `(tactic| ((try simp only [Int.ofNat_eq_natCast] at *); omega))
+
+/-- continuation style: `Res.bind a f = r` from `a = Res.ok v` and `f v = r` -/
+theorem bind_trans {α β : Type} {a : Res α} {v : α} {f : α → Res β} {r : Res β}
+    (h1 : a = Res.ok v) (h2 : f v = r) : Res.bind a f = r := by rw [h1]; exact h2
+
+/-! ## clamps: every spelling of `if x ⋚ y then … else …` that computes a minimum or maximum, as `min` / `max`
+    (`>`/`≥` are `<`/`≤` with the operands exchanged; simp sees through that) -/
+
+theorem ite_lt_min (x y : Int) : (if x < y then x else y) = Min.min x y := by split <;> omega
+theorem ite_le_min (x y : Int) : (if x ≤ y then x else y) = Min.min x y := by split <;> omega
+theorem ite_lt_max (x y : Int) : (if x < y then y else x) = Max.max x y := by split <;> omega
+theorem ite_le_max (x y : Int) : (if x ≤ y then y else x) = Max.max x y := by split <;> omega
+
 /-! ## slice expressions -/
 
 theorem slice_okI (s : Slice) (a b : Int) (i j : Nat) (ha : a = (i : Int)) (hb : b = (j : Int))
@@ -147,70 +162,102 @@ theorem insert_step (g : Gen.hash) (_p : Slice) (c : TCtx g.mask g.shift g.input
 
 /-! ## the re-indexing loops versus `insertRangeW` -/
 
-/-- loop_3 of `Parse` (`for j = i + 1; j < b; j++ { … }`) -/
-theorem loop3_eq (grow : Nat → Nat → Nat) (b : Int) (x : UInt64) (_p : Slice) (h : UInt32) :
-    ∀ (n fuel j : Nat) (a : Int) (s : Gen.hashParser), a = (j : Int) → n = (b - a).toNat → n < fuel →
+/-! The generated loop functions that the main loop of `hashParser.Parse` calls are NAMED HERE AND NOWHERE ELSE in
+    the proofs (`rehashLoop`: `for j = i + 1; j < b; j++ { … }`, `extLoop`: `for len(q) >= 8 { … goto match … }`).
+    The lemmas about them (`loop3_eq`, `loop2_eq`) and the two lines of `loop1_step` that instantiate these lemmas
+    are the only things that depend on which generated function is which; when the translator renumbers the loop
+    functions, this line is the only one to change. -/
+open LZ.Gen renaming hashParser_Parse_loop_3 → rehashLoop, hashParser_Parse_loop_2 → extLoop
+
+/-- the re-indexing loop of `Parse` (`for j = i + 1; j < b; j++ { … }`): spec of the generated loop function,
+    for every bound `b` with `n = b - a` iterations and whatever the two dead parameters `x`, `h` are -/
+theorem loop3_eq (grow : Nat → Nat → Nat) (_p : Slice) :
+    ∀ (n fuel j : Nat) (s : Gen.hashParser), n < fuel →
       (n = 0 ∨ j + n + 7 ≤ _p.len) →
       TCtx s.hashDictionary.hash.mask s.hashDictionary.hash.shift s.hashDictionary.hash.inputLen _p →
       TOK s.hashDictionary.hash.shift s.hashDictionary.hash.table →
-      ∃ jj t', TOK s.hashDictionary.hash.shift t' ∧
+      ∃ t', TOK s.hashDictionary.hash.shift t' ∧
         ProbeW.insertRangeW (ofHash s.hashDictionary.hash) _p.data j n = some (ofHashT s.hashDictionary.hash t') ∧
-        hashParser_Parse_loop_3 grow b x _p h fuel a s = Res.ok (jj, setT s t') := by
+        ∀ (a b : Int) (x : UInt64) (h : UInt32), a = (j : Int) → n = (b - a).toNat →
+          rehashLoop grow b x _p h fuel a s = Res.ok (((j + n : Nat) : Int), setT s t') := by
   intro n
   induction n with
   | zero =>
-    intro fuel j a s ha hb hf _ c ht
+    intro fuel j s hf _ c ht
     obtain ⟨f, rfl⟩ : ∃ f, fuel = f + 1 := ⟨fuel - 1, by omega⟩
-    refine ⟨a, s.hashDictionary.hash.table, ht, rfl, ?_⟩
-    rw [hashParser_Parse_loop_3, if_neg (by omega)]
+    refine ⟨s.hashDictionary.hash.table, ht, rfl, ?_⟩
+    intro a b x h ha hb
+    rw [rehashLoop]
+    split
+    all_goals first
+      | (exfalso; omega)
+      | (rw [ha]; rfl)
   | succ n ih =>
-    intro fuel j a s ha hb hf hn c ht
+    intro fuel j s hf hn c ht
     obtain ⟨f, rfl⟩ : ∃ f, fuel = f + 1 := ⟨fuel - 1, by omega⟩
-    obtain ⟨y, t1, hy, hF, hset, ht1, hins⟩ := insert_step s.hashDictionary.hash _p c _ ht a j ha (by omega)
-    rw [hashParser_Parse_loop_3, if_pos (by omega), hF]
-    dsimp only
-    rw [hset, bind_ok]
-    obtain ⟨jj, t2, ht2, hr, hl⟩ := ih f (j + 1) (a + 1) (setT s t1) (by omega) (by omega) (by omega) (by omega) c ht1
-    refine ⟨jj, t2, ht2, ?_, hl⟩
-    unfold ProbeW.insertRangeW
-    simp only [Option.bind_eq_bind]
-    rw [show ofHash s.hashDictionary.hash = ofHashT s.hashDictionary.hash s.hashDictionary.hash.table from rfl,
-      hins, Option.bind_some]
-    exact hr
+    obtain ⟨y, t1, hy, hF, hset, ht1, hins⟩ := insert_step s.hashDictionary.hash _p c _ ht (j : Int) j rfl (by omega)
+    obtain ⟨t2, ht2, hr, hl⟩ := ih f (j + 1) (setT s t1) (by omega) (by omega) c ht1
+    refine ⟨t2, ht2, ?_, ?_⟩
+    · unfold ProbeW.insertRangeW
+      simp only [Option.bind_eq_bind]
+      rw [show ofHash s.hashDictionary.hash = ofHashT s.hashDictionary.hash s.hashDictionary.hash.table from rfl,
+        hins, Option.bind_some]
+      exact hr
+    · intro a b x h ha hb
+      subst ha
+      have hl' := hl ((j : Int) + 1) b x h (by omega) (by omega)
+      rw [show j + 1 + n = j + (n + 1) by omega] at hl'
+      rw [rehashLoop]
+      split
+      all_goals first
+        | (exfalso; omega)
+        | (rw [hF]; dsimp only; rw [hset, bind_ok]; exact hl')
 
 /-- the table of a `hashDictionary` replaced -/
 @[reducible] def setD (f : Gen.hashDictionary) (t : GSlice hashEntry) : Gen.hashDictionary :=
   { f with hash := { f.hash with table := t } }
 
-/-- the loop of `processSegment` (`for i := a; i < b; i++ { … }`) -/
-theorem psegLoop_eq (b : Int) (_p : Slice) :
-    ∀ (n fuel j : Nat) (a : Int) (f : Gen.hashDictionary), a = (j : Int) → n = (b - a).toNat → n < fuel →
+/-- the loop of `processSegment` (`for i := a; i < b; i++ { … }`), for every bound `b` with `n = b - a` iterations -/
+theorem psegLoop_eq (_p : Slice) :
+    ∀ (n fuel j : Nat) (f : Gen.hashDictionary), n < fuel →
       (n = 0 ∨ j + n + 7 ≤ _p.len) →
       TCtx f.hash.mask f.hash.shift f.hash.inputLen _p →
       TOK f.hash.shift f.hash.table →
-      ∃ jj t', TOK f.hash.shift t' ∧
+      ∃ t', TOK f.hash.shift t' ∧
         ProbeW.insertRangeW (ofHash f.hash) _p.data j n = some (ofHashT f.hash t') ∧
-        hashDictionary_processSegment_loop_1 b _p fuel a f = Res.ok (jj, setD f t') := by
+        ∀ (a b : Int), a = (j : Int) → n = (b - a).toNat →
+          hashDictionary_processSegment_loop_1 b _p fuel a f = Res.ok (((j + n : Nat) : Int), setD f t') := by
   intro n
   induction n with
   | zero =>
-    intro fuel j a f ha hb hf _ c ht
+    intro fuel j f hf _ c ht
     obtain ⟨fu, rfl⟩ : ∃ fu, fuel = fu + 1 := ⟨fuel - 1, by omega⟩
-    refine ⟨a, f.hash.table, ht, rfl, ?_⟩
-    rw [hashDictionary_processSegment_loop_1, if_neg (by omega)]
+    refine ⟨f.hash.table, ht, rfl, ?_⟩
+    intro a b ha hb
+    rw [hashDictionary_processSegment_loop_1]
+    split
+    all_goals first
+      | (exfalso; omega)
+      | (rw [ha]; rfl)
   | succ n ih =>
-    intro fuel j a f ha hb hf hn c ht
+    intro fuel j f hf hn c ht
     obtain ⟨fu, rfl⟩ : ∃ fu, fuel = fu + 1 := ⟨fuel - 1, by omega⟩
-    obtain ⟨y, t1, hy, hF, hset, ht1, hins⟩ := insert_step f.hash _p c _ ht a j ha (by omega)
-    rw [hashDictionary_processSegment_loop_1, if_pos (by omega), hF]
-    dsimp only
-    rw [hset, bind_ok]
-    obtain ⟨jj, t2, ht2, hr, hl⟩ := ih fu (j + 1) (a + 1) (setD f t1) (by omega) (by omega) (by omega) (by omega) c ht1
-    refine ⟨jj, t2, ht2, ?_, hl⟩
-    unfold ProbeW.insertRangeW
-    simp only [Option.bind_eq_bind]
-    rw [show ofHash f.hash = ofHashT f.hash f.hash.table from rfl, hins, Option.bind_some]
-    exact hr
+    obtain ⟨y, t1, hy, hF, hset, ht1, hins⟩ := insert_step f.hash _p c _ ht (j : Int) j rfl (by omega)
+    obtain ⟨t2, ht2, hr, hl⟩ := ih fu (j + 1) (setD f t1) (by omega) (by omega) c ht1
+    refine ⟨t2, ht2, ?_, ?_⟩
+    · unfold ProbeW.insertRangeW
+      simp only [Option.bind_eq_bind]
+      rw [show ofHash f.hash = ofHashT f.hash f.hash.table from rfl, hins, Option.bind_some]
+      exact hr
+    · intro a b ha hb
+      subst ha
+      have hl' := hl ((j : Int) + 1) b (by omega) (by omega)
+      rw [show j + 1 + n = j + (n + 1) by omega] at hl'
+      rw [hashDictionary_processSegment_loop_1]
+      split
+      all_goals first
+        | (exfalso; omega)
+        | (rw [hF]; dsimp only; rw [hset, bind_ok]; exact hl')
 
 
 theorem take_append_drop_data (d : Slice) : d.data ++ d.arr.drop d.len = d.arr := by
@@ -230,45 +277,66 @@ theorem gen_processSegment (fuel : Nat) (f : Gen.hashDictionary) (a b : Int)
         hashDictionary_processSegment fuel f a b = Res.ok (setD f t') := by
   have hlen : f.ParserBuffer.Data.data.length = f.ParserBuffer.Data.len := data_length hD
   have hD' : f.ParserBuffer.Data.len ≤ f.ParserBuffer.Data.arr.length := hD
-  unfold ProbeW.processSegment1W hashDictionary_processSegment
+  -- the model side first (the Go function stays folded): its `a'`, `b'` as integers characterised for omega
+  unfold ProbeW.processSegment1W
   simp only [Option.bind_eq_bind]
-  have hc : ((f.ParserBuffer.Data.data.length : Nat) : Int) - ((ofHash f.hash).inputLen : Nat) + 1 =
-      ((Int.ofNat f.ParserBuffer.Data.len) - f.hash.inputLen) + 1 := by
-    rw [hlen]; show _ - ((f.hash.inputLen.toNat : Nat) : Int) + 1 = _
-    rw [Int.toNat_of_nonneg hil]; rfl
-  rw [hc]
-  have hb' : (if ((Int.ofNat f.ParserBuffer.Data.len) - f.hash.inputLen) + 1 < b then
-      ((Int.ofNat f.ParserBuffer.Data.len) - f.hash.inputLen) + 1 else b) ≤ (f.ParserBuffer.Data.len : Int) + 1 := by
-    split
-    · show (f.ParserBuffer.Data.len : Int) - _ + 1 ≤ _; omega
-    · rename_i h; have : b ≤ (f.ParserBuffer.Data.len : Int) - f.hash.inputLen + 1 := Int.not_lt.mp h
-      omega
-  generalize (if ((Int.ofNat f.ParserBuffer.Data.len) - f.hash.inputLen) + 1 < b then
-      ((Int.ofNat f.ParserBuffer.Data.len) - f.hash.inputLen) + 1 else b) = b' at hb' ⊢
-  have ha' : 0 ≤ (if a < 0 then 0 else a) := by split <;> omega
-  generalize (if a < 0 then 0 else a) = a' at ha' ⊢
+  have hil' : (((ofHash f.hash).inputLen : Nat) : Int) = f.hash.inputLen := by
+    show ((f.hash.inputLen.toNat : Nat) : Int) = _; omega
+  rw [hlen, hil']
+  obtain ⟨a', hae, ha'⟩ : ∃ a' : Int, (if a < 0 then 0 else a) = a' ∧ ((a < 0 ∧ a' = 0) ∨ (¬ a < 0 ∧ a' = a)) :=
+    ⟨_, rfl, by split <;> omega⟩
+  obtain ⟨b', hbe, hb'⟩ : ∃ b' : Int,
+      (if (f.ParserBuffer.Data.len : Int) - f.hash.inputLen + 1 < b then (f.ParserBuffer.Data.len : Int) - f.hash.inputLen + 1 else b) = b' ∧
+      (((f.ParserBuffer.Data.len : Int) - f.hash.inputLen + 1 < b ∧ b' = (f.ParserBuffer.Data.len : Int) - f.hash.inputLen + 1) ∨
+       (¬ (f.ParserBuffer.Data.len : Int) - f.hash.inputLen + 1 < b ∧ b' = b)) :=
+    ⟨_, rfl, by split <;> omega⟩
+  rw [hae, hbe]
+  clear hae hbe
+  -- the Go side: unfold, split the `if`s as they come, every leaf is either contradictory or one of three cases
   by_cases hb0 : b' ≤ 0
-  · simp only [if_pos hb0]
-    exact ⟨f.hash.table, ht, rfl, rfl⟩
-  simp only [if_neg hb0]
+  · rw [if_pos hb0]
+    dsimp only
+    refine ⟨f.hash.table, ht, rfl, ?_⟩
+    unfold hashDictionary_processSegment
+    dsimp only
+    try simp only [gen_helper, LZ.GenProps.gen_min]
+    repeat' split
+    all_goals first
+      | rfl
+      | (exfalso; int_omega)
+  rw [if_neg hb0]
   unfold BytesW.sliceTo
   rw [take_append_drop_data]
+  -- whatever the spelling of the two clamps: in every leaf of the unfolded Go text the bounds are `a'`, `b'` (omega)
   by_cases hcap : b'.toNat + 7 ≤ f.ParserBuffer.Data.arr.length
   · rw [if_pos hcap, Option.bind_some]
-    rw [slice_okI f.ParserBuffer.Data 0 (b' + 7) 0 (b'.toNat + 7) rfl (by omega) (by omega) hcap, bind_ok]
-    simp only [List.drop_zero, Nat.sub_zero]
     have c : TCtx f.hash.mask f.hash.shift f.hash.inputLen
         { arr := f.ParserBuffer.Data.arr, len := b'.toNat + 7 } :=
       ⟨hcap, hmask, sh1, sh2, by show b'.toNat + 7 < _; omega⟩
-    obtain ⟨jj, t', ht', hr, hl⟩ := psegLoop_eq b' { arr := f.ParserBuffer.Data.arr, len := b'.toNat + 7 }
-      (b'.toNat - a'.toNat) fuel a'.toNat a' f (by omega) (by omega) (by omega)
+    obtain ⟨t', ht', hr, hl⟩ := psegLoop_eq { arr := f.ParserBuffer.Data.arr, len := b'.toNat + 7 }
+      (b'.toNat - a'.toNat) fuel a'.toNat f (by omega)
       (by show _ ∨ _ ≤ b'.toNat + 7; omega) c ht
     rw [data_mk] at hr
-    rw [hr, hl, bind_ok]
-    exact ⟨t', ht', rfl, rfl⟩
+    rw [hr]
+    refine ⟨t', ht', rfl, ?_⟩
+    unfold hashDictionary_processSegment
+    dsimp only
+    try simp only [gen_helper, LZ.GenProps.gen_min]
+    repeat' split
+    all_goals first
+      | (exfalso; int_omega)
+      | (refine bind_trans (slice_okI f.ParserBuffer.Data 0 _ 0 (b'.toNat + 7) rfl (by int_omega) (by omega) hcap) ?_
+         simp only [List.drop_zero, Nat.sub_zero]
+         exact bind_trans (hl _ _ (by int_omega) (by int_omega)) rfl)
   · rw [if_neg hcap]
-    rw [slice_panic _ _ _ (by right; right; omega)]
-    rfl
+    show hashDictionary_processSegment fuel f a b = Res.panic
+    unfold hashDictionary_processSegment
+    dsimp only
+    try simp only [gen_helper, LZ.GenProps.gen_min]
+    repeat' split
+    all_goals first
+      | (exfalso; int_omega)
+      | (rw [slice_panic _ _ _ (by right; right; int_omega)]; rfl)
 
 
 /-! ## the match extension loop (loop_2 of `Parse`, with `goto match` as exit code 1) -/
@@ -290,11 +358,14 @@ theorem matchExtLoop_ge (r q : List Byte) (k : Nat) (h8 : 8 ≤ q.length) (hr : 
 theorem data_drop' (r : Slice) (i : Nat) :
     ({ arr := r.arr.drop i, len := r.len - i } : Slice).data = r.data.drop i := data_drop r.arr r.len i
 
-theorem loop2_eq (grow : Nat → Nat → Nat) (x : UInt64) :
+/-- the match extension loop `for len(q) >= 8 { … goto match … }`: spec of the generated loop function (`extLoop`),
+    whatever its two dead parameters are -/
+theorem loop2_eq :
     ∀ (m fuel kN : Nat) (k : Int) (r q : Slice), q.len < 8 * m → m ≤ fuel → k = (kN : Int) →
       SWF r → SWF q → q.len ≤ r.len →
       ∃ (e kN' : Nat) (r' q' : Slice),
-        hashParser_Parse_loop_2 grow x fuel k r q = Res.ok (e, (kN' : Int), r', q') ∧ SWF r' ∧ SWF q' ∧
+        (∀ (grow : Nat → Nat → Nat) (x : UInt64), extLoop grow x fuel k r q = Res.ok (e, (kN' : Int), r', q')) ∧
+        SWF r' ∧ SWF q' ∧
         ((e = 1 ∧ BytesW.matchExtLoop r.data q.data kN = some kN') ∨
          (e ≠ 1 ∧ BytesW.matchExtLoop r.data q.data kN = some (BytesW.matchExtTail r'.data q'.data kN'))) := by
   intro m
@@ -307,27 +378,67 @@ theorem loop2_eq (grow : Nat → Nat → Nat) (x : UInt64) :
     have hql : q.data.length = q.len := data_length hq
     have hr' : r.len ≤ r.arr.length := hr
     have hq' : q.len ≤ q.arr.length := hq
-    rw [hashParser_Parse_loop_2]
+    subst hk
     by_cases h8 : 8 ≤ q.len
-    · rw [if_pos (by show (q.len : Int) ≥ 8; omega), gen_le64 r hr, gen_le64 q hq,
-        BytesW.le64_eq_some _ (by omega), BytesW.le64_eq_some _ (by omega)]
-      simp only [ofOpt, bind_ok, tz_shr]
+    · -- the two words, on both sides
+      have e1 : Gen._getLE64 r = Res.ok (BytesW.getLE64 r.data) := by
+        rw [gen_le64 r hr, BytesW.le64_eq_some _ (by omega)]; rfl
+      have e2 : Gen._getLE64 q = Res.ok (BytesW.getLE64 q.data) := by
+        rw [gen_le64 q hq, BytesW.le64_eq_some _ (by omega)]; rfl
       rw [matchExtLoop_ge _ _ _ (by omega) (by omega)]
-      generalize BytesW.tz64 (BytesW.getLE64 r.data ^^^ BytesW.getLE64 q.data) >>> 3 = b
+      obtain ⟨b, hbdef⟩ : ∃ b, b = BytesW.tz64 (BytesW.getLE64 r.data ^^^ BytesW.getLE64 q.data) >>> 3 := ⟨_, rfl⟩
+      rw [← hbdef]
       by_cases hb : b < 8
-      · rw [if_pos (by omega), if_pos hb]
-        exact ⟨1, kN + b, r, q, by rw [hk]; rfl, hr, hq, Or.inl ⟨rfl, rfl⟩⟩
-      · rw [if_neg (by omega), if_neg hb,
-          slice_okI r 8 (Int.ofNat r.len) 8 r.len rfl rfl (by omega) hr', bind_ok,
-          slice_okI q 8 (Int.ofNat q.len) 8 q.len rfl rfl (by omega) hq', bind_ok]
-        obtain ⟨e, kN', r', q', hl, h1, h2, h3⟩ := ih f (kN + b) (k + (b : Int))
+      · rw [if_pos hb]
+        refine ⟨1, kN + b, r, q, ?_, hr, hq, Or.inl ⟨rfl, rfl⟩⟩
+        intro grow x
+        rw [extLoop]
+        split
+        all_goals first
+          | (exfalso; int_omega)
+          | (rw [e1, bind_ok, e2, bind_ok]
+             simp only [tz_shr, ← hbdef]
+             split
+             all_goals first
+               | (exfalso; int_omega)
+               | rfl)
+      · rw [if_neg hb]
+        obtain ⟨e, kN', r', q', hl, h1, h2, h3⟩ := ih f (kN + b) ((kN : Int) + (b : Int))
           { arr := r.arr.drop 8, len := r.len - 8 } { arr := q.arr.drop 8, len := q.len - 8 }
-          (by show q.len - 8 < _; omega) (by omega) (by rw [hk]; rfl) (swf_drop _ _ _ hr') (swf_drop _ _ _ hq')
+          (by show q.len - 8 < _; omega) (by omega) rfl (swf_drop _ _ _ hr') (swf_drop _ _ _ hq')
           (by show q.len - 8 ≤ r.len - 8; omega)
         rw [data_drop', data_drop'] at h3
-        exact ⟨e, kN', r', q', hl, h1, h2, h3⟩
-    · rw [if_neg (by show ¬ (q.len : Int) ≥ 8; omega), matchExtLoop_lt _ _ _ (by omega)]
-      exact ⟨0, kN, r, q, by rw [hk], hr, hq, Or.inr ⟨by decide, rfl⟩⟩
+        refine ⟨e, kN', r', q', ?_, h1, h2, h3⟩
+        intro grow x
+        rw [extLoop]
+        split
+        all_goals first
+          | (exfalso; int_omega)
+          | (rw [e1, bind_ok, e2, bind_ok]
+             simp only [tz_shr, ← hbdef]
+             split
+             all_goals first
+               | (exfalso; int_omega)
+               | (refine bind_trans (slice_okI r 8 _ 8 r.len rfl rfl (by omega) hr') ?_
+                  refine bind_trans (slice_okI q 8 _ 8 q.len rfl rfl (by omega) hq') ?_
+                  exact hl grow x))
+    · rw [matchExtLoop_lt _ _ _ (by omega)]
+      refine ⟨0, kN, r, q, ?_, hr, hq, Or.inr ⟨by decide, rfl⟩⟩
+      intro grow x
+      rw [extLoop]
+      split
+      all_goals first
+        | (exfalso; int_omega)
+        | rfl
+
+/-- the value of `BytesW.matchExtTail` for a non-empty `q`, with the clamp as a `min` (for omega) -/
+theorem tail_min (r q : List Byte) (kN : Nat) (hq : q.length > 0) :
+    ((BytesW.matchExtTail r q kN : Nat) : Int) =
+      (kN : Int) + ((Min.min (BytesW.tz64 (BytesW.getLE64 r ^^^ BytesW.getLE64 q) >>> 3) q.length : Nat) : Int) := by
+  unfold BytesW.matchExtTail
+  rw [if_pos hq]
+  simp only []
+  split <;> omega
 
 /-- `getLE64(r)^getLE64(q)` tail of the match extension, as an equation between the Go `int` value and
     `BytesW.matchExtTail` (the `if len(q) > 0` is decided by the caller) -/
